@@ -317,7 +317,7 @@ func parseSortName(s string) (Sort, error) {
 
 var reGhostMacro = regexp.MustCompile(`^ghost\s+macro\s+([A-Za-z_][A-Za-z0-9_]*)\s*\(([^)]*)\)\s*=\s*(.*)$`)
 var reGhostFunc = regexp.MustCompile(`^ghost\s+(func|def)\s+([A-Za-z_][A-Za-z0-9_]*)\s*\(([^)]*)\)\s*([^=]+?)\s*(=\s*(.*))?$`)
-var reFuncHdr = regexp.MustCompile(`^func\s+([A-Za-z_][A-Za-z0-9_.]*)\s*(\(([^)]*)\))?\s*$`)
+var reFuncHdr = regexp.MustCompile(`^func\s+([A-Za-z_][A-Za-z0-9_.@]*)\s*(\(([^)]*)\))?\s*$`)
 
 // loadSpecFile parses the //@ lines of a file. pkgPrefix ("glob") is prepended to func keys
 // that have no package qualifier (contracts inside the repo); extern files give full keys.
